@@ -240,6 +240,7 @@ type SimSource struct {
 	EmptyReads int
 	SlowReads  int
 	lastEmpty  bool
+	selfChecked bool
 	toggle     bool
 	stuck      bool
 	Log        []ReadRec
@@ -326,6 +327,9 @@ func (s *SimSource) size(req int) int {
 	return req
 }
 
+// nestedDetect runs a detection from inside a device Read (set by exec.go).
+var nestedDetect func(workflow string)
+
 // slowBudget bounds the slow reads of one run (the bubble's clock is finite).
 func (s *SimSource) slowBudget() bool {
 	s.mu.Lock()
@@ -358,6 +362,15 @@ func (s *SimSource) Read(p []byte) (int, error) {
 	}
 	if !s.sim {
 		stir(uint64(s.Reads))
+	}
+	if s.sim && s.chunk.Reentrant != "" {
+		s.mu.Lock()
+		first := !s.selfChecked
+		s.selfChecked = true
+		s.mu.Unlock()
+		if first && nestedDetect != nil {
+			nestedDetect(s.chunk.Reentrant)
+		}
 	}
 	s.mu.Lock()
 	defer s.mu.Unlock()
